@@ -1,12 +1,380 @@
-/- C19 model — placeholder until the property is built -/
+/-
+  C19 — klongpy/db/sys_fn_db.py `Table` as a list-of-rows machine with an insert buffer,
+  and the abstract table (no buffer: every insert applied at once) it must be
+  indistinguishable from.
+
+  Mirrors (klongpy/db/sys_fn_db.py, after the three `fix:` commits of branch fix-c19):
+    Table.__init__ / eval_sys_fn_create_table  -> `create`
+    Table.insert / insertb / eval_sys_fn_insert_table -> `step … (.insert r)`, `(.insertb rs)`
+    Table.commit                               -> `commit`  (unindexed: concatenate;
+                                                  indexed: `commitIdx` = last buffered row per
+                                                  key, `_create_index_from_cols`, overwrite of
+                                                  common keys, append of new keys, sort_index)
+    Table._create_index_from_cols              -> `createIndex` (sort_index, drop_duplicates)
+    Table.get_dataframe / __len__              -> `commit` first, then the read
+    Table.get   (klongpy/dyads.py eval_dyad_find `t?col`)   -> `.readCol`  (commits: fix 1)
+    Table.set   (klongpy/dyads.py eval_dyad_join `t,c,,v`)  -> `.addCol`   (commits: fix 3)
+    Table.schema / eval_sys_fn_schema          -> `.schema`  (does not commit)
+    Table.set_index / eval_sys_fn_index        -> `.index`
+    Table.reset_index / eval_sys_fn_reset_index-> `.rindex`  (commits only when indexed)
+    Database.__call__ "select * from T"        -> `.selectAll`
+  The behaviour of the pinned tree before the fixes is kept as `Pinned.*` for the
+  `decide`-checked witnesses in Props/C19.lean.
+
+  Values: a cell is a number (integers and reals alike, held exactly as a multiple of 1/4:
+  pandas' `DataFrame.values` turns an integer column into a real one as soon as a real
+  column sits next to it, so the numeric *kind* of a cell is not part of the model) or a
+  string (list of code points).  pandas / duckdb are trusted to implement the list
+  operations written here.
+-/
 import Klong.Model.Wire
 namespace Klong.C19
+open Klong.Wire
 
-structure State where
-  unit : Unit := ()
+inductive Cell
+  | num (q : Int)          -- the number q/4
+  | str (cs : List Nat)    -- a string, by code points
+deriving DecidableEq, Repr
 
-def init : State := {}
+abbrev Row := List Cell
+abbrev Key := List Cell
+abbrev Col := String
 
-def handle (s : State) (_ws : List String) : State × String := (s, "bad-op")
+/-! ### order of keys: lexicographic, numbers before strings -/
+
+/-- lexicographic `≤` on lists of equal length (shorter list first otherwise) -/
+def lexLe {α : Type} [DecidableEq α] (le : α → α → Bool) : List α → List α → Bool
+  | [], _ => true
+  | _ :: _, [] => false
+  | a :: as, b :: bs => if a = b then lexLe le as bs else le a b
+
+def natLe (a b : Nat) : Bool := decide (a ≤ b)
+
+def Cell.le : Cell → Cell → Bool
+  | .num a, .num b => decide (a ≤ b)
+  | .num _, .str _ => true
+  | .str _, .num _ => false
+  | .str a, .str b => lexLe natLe a b
+
+def Key.le (a b : Key) : Bool := lexLe Cell.le a b
+
+/-! ### the pandas steps as list operations, for a key function `kf` -/
+
+/-- insert in front of the first row whose key is not smaller (folding from the right with
+    it is a stable sort) -/
+def insertRow (kf : Row → Key) (r : Row) : List Row → List Row
+  | [] => [r]
+  | q :: qs => if Key.le (kf r) (kf q) then r :: q :: qs else q :: insertRow kf r qs
+
+/-- `sort_index` -/
+def sortRows (kf : Row → Key) : List Row → List Row
+  | [] => []
+  | r :: rs => insertRow kf r (sortRows kf rs)
+
+/-- `drop_duplicates()` : fully identical rows, first one kept -/
+def dropDupRows : List Row → List Row
+  | [] => []
+  | r :: rs => r :: (dropDupRows rs).filter (fun q => q != r)
+
+/-- `drop_duplicates(subset=idx_cols, keep='last')` : the last row of every key, in place -/
+def dedupLast (kf : Row → Key) : List Row → List Row
+  | [] => []
+  | r :: rs => if rs.any (fun q => kf q == kf r) then dedupLast kf rs else r :: dedupLast kf rs
+
+/-- `_create_index_from_cols` : index on the key, `sort_index`, `drop_duplicates` -/
+def createIndex (kf : Row → Key) (rs : List Row) : List Row := dropDupRows (sortRows kf rs)
+
+/-- first row with key `k` -/
+def findKey (kf : Row → Key) (k : Key) (rs : List Row) : Option Row := rs.find? (fun r => kf r == k)
+
+/-- last row with key `k` -/
+def findLast (kf : Row → Key) (k : Key) (rs : List Row) : Option Row := findKey kf k rs.reverse
+
+def hasKey (kf : Row → Key) (rs : List Row) (k : Key) : Bool := rs.any (fun q => kf q == k)
+
+/-- `commit()` of an indexed table: frame `C`, buffer `B` -/
+def commitIdx (kf : Row → Key) (C B : List Row) : List Row :=
+  let bdf := createIndex kf (dedupLast kf B)                     -- buffer_df
+  let C' := C.map (fun r => (findKey kf (kf r) bdf).getD r)       -- .loc[common] = buffer_df.loc[common]
+  let new := bdf.filter (fun r => !hasKey kf C (kf r))           -- buffer_df.loc[~isin(common)]
+  sortRows kf (C' ++ new)                                        -- concat, sort_index
+
+/-! ### the table -/
+
+structure Table where
+  cols : List Col
+  committed : List Row
+  buffer : List Row
+  idx : Option (List Col)
+deriving Repr, DecidableEq
+
+def positions (cols : List Col) (ks : List Col) : List Nat := ks.map (fun k => cols.idxOf k)
+
+def cellAt (r : Row) (i : Nat) : Cell := r.getD i (.num 0)
+
+def keyOf (pos : List Nat) (r : Row) : Key := pos.map (cellAt r)
+
+/-- key function of an index on the columns `ks` -/
+def keyFn (cols : List Col) (ks : List Col) : Row → Key := keyOf (positions cols ks)
+
+def create (cols : List Col) (rows : List Row) : Table :=
+  { cols, committed := rows, buffer := [], idx := none }
+
+def commit (t : Table) : Table :=
+  if t.buffer.isEmpty then t
+  else match t.idx with
+    | none => { t with committed := t.committed ++ t.buffer, buffer := [] }
+    | some ks => { t with committed := commitIdx (keyFn t.cols ks) t.committed t.buffer, buffer := [] }
+
+inductive Op
+  | insert (r : Row)
+  | insertb (rs : List Row)
+  | readCol (c : Col)
+  | count
+  | schema
+  | index (ks : List Col)
+  | rindex
+  | addCol (c : Col) (vs : List Cell)
+  | selectAll
+deriving Repr, DecidableEq
+
+inductive Out
+  | table                          -- `.insert` / `t,c,,v` return the table
+  | col (v : Option (List Cell))   -- `none` is :undefined
+  | n (k : Nat)
+  | names (cs : List Col)
+  | rows (rs : List Row)
+  | err                            -- the interpreter raises (wrong width, no such column, …)
+  | outside                        -- request outside the modelled domain (never sent by the tie)
+deriving Repr, DecidableEq
+
+def column (cols : List Col) (rows : List Row) (c : Col) : Option (List Cell) :=
+  if c ∈ cols then some (rows.map (fun r => cellAt r (cols.idxOf c))) else none
+
+/-- is the batch a 2-d array (all rows as wide as the first) -/
+def rect (rs : List Row) (w : Nat) : Bool := rs.all (fun r => r.length == w)
+
+def addCells (rows : List Row) (vs : List Cell) : List Row := List.zipWith (fun r v => r ++ [v]) rows vs
+
+def step (t : Table) : Op → Table × Out
+  | .insert r =>
+    if r.length = t.cols.length then ({ t with buffer := t.buffer ++ [r] }, .table) else (t, .err)
+  | .insertb rs =>
+    match rs with
+    | [] => (t, .outside)
+    | r0 :: _ =>
+      if !rect rs r0.length then (t, .outside)
+      else if r0.length = t.cols.length then ({ t with buffer := t.buffer ++ rs }, .table)
+      else (t, .err)
+  | .readCol c =>
+    let t1 := commit t
+    (t1, .col (column t1.cols t1.committed c))
+  | .count =>
+    let t1 := commit t
+    (t1, .n t1.committed.length)
+  | .schema => (t, .names t.cols)
+  | .index ks =>
+    if t.idx.isSome then (t, .err)
+    else if ks = [] ∨ ¬ ks.Nodup then (t, .outside)
+    else if ¬ ks ⊆ t.cols then (t, .err)
+    else
+      let t1 := commit t
+      let kf := keyFn t1.cols ks
+      -- the property speaks about indexes on columns whose values are unique
+      if ¬ (t1.committed.map kf).Nodup then (t1, .outside)
+      else ({ t1 with committed := createIndex kf t1.committed, idx := some ks }, .names ks)
+  | .rindex =>
+    if t.idx.isSome then
+      let t1 := commit t
+      ({ t1 with idx := none }, .n 1)
+    else (t, .n 0)
+  | .addCol c vs =>
+    let t1 := commit t
+    if c ∈ t1.cols then (t1, .outside)          -- overwriting a column is not modelled
+    else if vs.length = t1.committed.length then
+      ({ t1 with cols := t1.cols ++ [c], committed := addCells t1.committed vs }, .table)
+    else if t1.committed.isEmpty then (t1, .outside)   -- pandas lets a column define the rows of an empty frame
+    else (t1, .err)
+  | .selectAll =>
+    let t1 := commit t
+    (t1, .rows t1.committed)
+
+def run (t : Table) : List Op → Table × List Out
+  | [] => (t, [])
+  | op :: ops =>
+    let (t1, o) := step t op
+    let (t2, os) := run t1 ops
+    (t2, o :: os)
+
+/-- what the table holds: the frame after flushing the buffer -/
+def content (t : Table) : List Row := (commit t).committed
+
+/-! ### abstract table: no buffer, every insert applied at once -/
+
+structure Spec where
+  cols : List Col
+  rows : List Row
+  idx : Option (List Col)
+deriving Repr, DecidableEq
+
+/-- key ↦ row map kept sorted by key: replace the row of the key or put it in its place -/
+def upsert (kf : Row → Key) (r : Row) : List Row → List Row
+  | [] => [r]
+  | q :: qs =>
+    if kf q = kf r then r :: qs
+    else if Key.le (kf r) (kf q) then r :: q :: qs
+    else q :: upsert kf r qs
+
+def Spec.ins (s : Spec) (rs : List Row) : List Row :=
+  match s.idx with
+  | none => s.rows ++ rs
+  | some ks => rs.foldl (fun acc r => upsert (keyFn s.cols ks) r acc) s.rows
+
+def specStep (s : Spec) : Op → Spec × Out
+  | .insert r =>
+    if r.length = s.cols.length then ({ s with rows := s.ins [r] }, .table) else (s, .err)
+  | .insertb rs =>
+    match rs with
+    | [] => (s, .outside)
+    | r0 :: _ =>
+      if !rect rs r0.length then (s, .outside)
+      else if r0.length = s.cols.length then ({ s with rows := s.ins rs }, .table)
+      else (s, .err)
+  | .readCol c => (s, .col (column s.cols s.rows c))
+  | .count => (s, .n s.rows.length)
+  | .schema => (s, .names s.cols)
+  | .index ks =>
+    if s.idx.isSome then (s, .err)
+    else if ks = [] ∨ ¬ ks.Nodup then (s, .outside)
+    else if ¬ ks ⊆ s.cols then (s, .err)
+    else if ¬ (s.rows.map (keyFn s.cols ks)).Nodup then (s, .outside)
+    else ({ s with rows := sortRows (keyFn s.cols ks) s.rows, idx := some ks }, .names ks)
+  | .rindex => if s.idx.isSome then ({ s with idx := none }, .n 1) else (s, .n 0)
+  | .addCol c vs =>
+    if c ∈ s.cols then (s, .outside)
+    else if vs.length = s.rows.length then
+      ({ s with cols := s.cols ++ [c], rows := addCells s.rows vs }, .table)
+    else if s.rows.isEmpty then (s, .outside)
+    else (s, .err)
+  | .selectAll => (s, .rows s.rows)
+
+def specRun (s : Spec) : List Op → Spec × List Out
+  | [] => (s, [])
+  | op :: ops =>
+    let (s1, o) := specStep s op
+    let (s2, os) := specRun s1 ops
+    (s2, o :: os)
+
+def abs (t : Table) : Spec := { cols := t.cols, rows := content t, idx := t.idx }
+
+/-- rows handed to the table by a history (those of the right width) -/
+def inserted (w : Nat) : List Op → List Row
+  | [] => []
+  | .insert r :: ops => (if r.length = w then [r] else []) ++ inserted w ops
+  | .insertb rs :: ops =>
+    (match rs with
+     | [] => []
+     | r0 :: _ => if rect rs r0.length && r0.length == w then rs else []) ++ inserted w ops
+  | _ :: ops => inserted w ops
+
+/-- operations that insert or read but change neither index nor columns -/
+def Op.isData : Op → Bool
+  | .insert _ | .insertb _ | .readCol _ | .count | .schema | .selectAll => true
+  | _ => false
+
+/-! ### the pinned tree (before fix-c19), for the recorded witnesses -/
+
+namespace Pinned
+
+/-- `commit()` without the last-row-per-key step -/
+def commitIdx (kf : Row → Key) (C B : List Row) : List Row :=
+  let bdf := createIndex kf B
+  let C' := C.map (fun r => (findKey kf (kf r) bdf).getD r)
+  let new := bdf.filter (fun r => !hasKey kf C (kf r))
+  sortRows kf (C' ++ new)
+
+def commit (t : Table) : Table :=
+  if t.buffer.isEmpty then t
+  else match t.idx with
+    | none => { t with committed := t.committed ++ t.buffer, buffer := [] }
+    | some ks => { t with committed := commitIdx (keyFn t.cols ks) t.committed t.buffer, buffer := [] }
+
+/-- `Table.get` read `_df` without flushing the buffer -/
+def readCol (t : Table) (c : Col) : Table × Out := (t, .col (column t.cols t.committed c))
+
+def count (t : Table) : Table × Out := let t1 := commit t; (t1, .n t1.committed.length)
+
+end Pinned
+
+/-! ### driver -/
+
+def parseCell (s : String) : Option Cell :=
+  match s.splitOn ":" with
+  | ["n", v] => v.toInt?.map Cell.num
+  | ["s", v] => (parseHex v).map Cell.str
+  | _ => none
+
+def showCell : Cell → String
+  | .num q => s!"n:{q}"
+  | .str cs => s!"s:{toHex cs}"
+
+def parseRow (s : String) : Option Row := (splitOnChar s ',').mapM parseCell
+
+def parseRows (s : String) : Option (List Row) := (splitOnChar s ';').mapM parseRow
+
+def showRow (r : Row) : String := ",".intercalate (r.map showCell)
+
+def showRows (rs : List Row) : String := ";".intercalate (rs.map showRow)
+
+def showOut : Out → String
+  | .table => "table"
+  | .col none => "undefined"
+  | .col (some v) => s!"col:{showRow v}"
+  | .n k => s!"n:{k}"
+  | .names cs => s!"names:{",".intercalate cs}"
+  | .rows rs => s!"rows:{showRows rs}"
+  | .err => "err"
+  | .outside => "outside"
+
+def digest (t : Table) : String :=
+  let i := match t.idx with
+    | none => "-"
+    | some ks => ",".intercalate ks
+  s!"cols={",".intercalate t.cols} idx={i} content={showRows (content t)}"
+
+def parseOp (ws : List String) : Option Op :=
+  match ws with
+  | "insert" :: rest => (parseRow (fieldD (fields rest) "row")).map Op.insert
+  | "insertb" :: rest => (parseRows (fieldD (fields rest) "rows")).map Op.insertb
+  | "read" :: rest => some (.readCol (fieldD (fields rest) "col"))
+  | ["count"] => some .count
+  | ["schema"] => some .schema
+  | "index" :: rest => some (.index (listField (fields rest) "ks"))
+  | ["rindex"] => some .rindex
+  | "addcol" :: rest =>
+    (parseRow (fieldD (fields rest) "vals")).map (Op.addCol (fieldD (fields rest) "col"))
+  | ["select"] => some .selectAll
+  | _ => none
+
+def init : Table := create [] []
+
+def handle (t : Table) (ws : List String) : Table × String :=
+  match ws with
+  | "new" :: rest =>
+    let fs := fields rest
+    let cols := listField fs "cols"
+    match parseRows (fieldD fs "rows") with
+    | some rows =>
+      if rect rows cols.length then
+        let t' := create cols rows
+        (t', "ok " ++ digest t')
+      else (t, "bad-op")
+    | none => (t, "bad-op")
+  | _ =>
+    match parseOp ws with
+    | some op =>
+      let (t', o) := step t op
+      (t', showOut o ++ " " ++ digest t')
+    | none => (t, "bad-op")
 
 end Klong.C19
